@@ -515,7 +515,8 @@ fn row_json(base: NaiveDate, r: &Row, rows: &[Row]) -> Value {
     let fee = if r.fee % 3 == 0 { None } else { Some(Decimal::new(r.fee as i64 % 5000, 2)) };
     let fee_text = match fee {
         None => if r.fee % 2 == 0 { "".to_string() } else { "--".to_string() },
-        Some(f) => money_text(f, r.style / 4, false),
+        // Schwab spells debits with a minus sign in some columns: a fee keeps its size either way
+        Some(f) => money_text(f, r.style / 4, r.fee % 7 == 3),
     };
     let amount = Decimal::new(1 + r.amount as i64, 2);
     let mk = |action: &str, sym: &str, q: String, p: String, f: String, a: String| json!({"Date": date_text, "Action": action, "Symbol": sym, "Description": r.desc, "Quantity": q, "Price": p, "Fees & Comm": f, "Amount": a, "ItemIssueId": "0"});
